@@ -30,8 +30,9 @@ VARIABLES now,      \* simulated time
           top,      \* top level: [mode, uk, ue, n]: "top" | "run" | "step", kind of until, until event, plan position
           log,      \* observable trace
           script,   \* choices made: script[p + 1] = ops executed by process p (p = 0: the top-level plan)
-          res       \* shared resources by id: [kind, cap, users, putq, getq, level, items] (C06, C07)
-kvars == <<now, agenda, seq, evs, procs, cur, run, top, log, script, res>>
+          res,      \* shared resources by id: [kind, cap, users, putq, getq, level, items] (C06, C07)
+          ftab      \* frozen: float-instant table [on, plus, unt] (see Add); on = FALSE means integer instants
+kvars == <<now, agenda, seq, evs, procs, cur, run, top, log, script, res, ftab>>
 
 URG == 0
 NRM == 1
@@ -46,7 +47,14 @@ NewEv(kind, st, ok, val, def, cbs, pr, kids, all) ==
   [kind |-> kind, st |-> st, ok |-> ok, val |-> val, def |-> def, cbs |-> cbs, pr |-> pr,
    kids |-> kids, all |-> all, cnt |-> 0, orph |-> FALSE]
 
-Entry(e, prio, d, k) == [t |-> now + d, prio |-> prio, k |-> k, e |-> e]
+(* Instants.  With integer delays an instant is a number and t + d is addition.  For programs with float delays the   *)
+(* harness replaces every instant by its rank among all float sums occurring in the run (order and equality of floats  *)
+(* are all the kernel uses) and supplies ftab.plus[rank of t + 1][delay index] = rank of the float sum t + d and       *)
+(* ftab.unt[i] = rank of the i-th until instant; delay index 0 means "this instant".                                   *)
+IntTimes == [on |-> FALSE, plus |-> <<>>, unt |-> <<>>]
+Add(t, d) == IF ftab.on THEN (IF d = 0 THEN t ELSE ftab.plus[t + 1][d]) ELSE t + d
+UntilAt(a) == IF ftab.on THEN ftab.unt[a] ELSE a
+Entry(e, prio, d, k) == [t |-> Add(now, d), prio |-> prio, k |-> k, e |-> e]
 Less(a, b) == \/ a.t < b.t
               \/ a.t = b.t /\ a.prio < b.prio
               \/ a.t = b.t /\ a.prio = b.prio /\ a.k < b.k
@@ -59,7 +67,7 @@ KInit ==
   /\ now = 0 /\ agenda = {} /\ seq = 1 /\ evs = <<>> /\ procs = <<>>
   /\ cur = NoCur /\ run = NoRun
   /\ top = [mode |-> "top", uk |-> "none", ue |-> 0, n |-> 0]
-  /\ log = <<>> /\ script = <<<<>>>> /\ res = <<>>
+  /\ log = <<>> /\ script = <<<<>>>> /\ res = <<>> /\ ftab = IntTimes
 
 Stepping == top.mode \in {"run", "step", "steps"}
 Idle == cur.e = 0 /\ run.p = 0
@@ -408,7 +416,7 @@ Do(o) ==
             /\ procs' = Bump(procs) /\ UNCHANGED run
        [] o.k = "spawn" ->
             LET q == Len(procs) + 1  pe == Len(evs) + 1  ie == Len(evs) + 2 IN
-            /\ evs' = evs \o << NewEv("proc", "pending", TRUE, None, FALSE, <<Cb("probe", pe)>>, q, <<>>, FALSE),
+            /\ evs' = evs \o << NewEv("proc", "pending", TRUE, None, FALSE, IF o.b = 1 THEN <<>> ELSE <<Cb("probe", pe)>>, q, <<>>, FALSE),
                                 NewEv("init", "triggered", TRUE, Val("init", 0, <<>>), FALSE, <<Cb("resume", q)>>, q, <<>>, FALSE) >>
             /\ procs' = Append(Bump(procs), [pe |-> pe, tgt |-> ie, alive |-> TRUE, n |-> 0, catch |-> 0])
             /\ agenda' = agenda \cup {Entry(ie, URG, 0, seq)} /\ seq' = seq + 1
@@ -510,13 +518,14 @@ Do(o) ==
                /\ procs' = Bump(procs) /\ UNCHANGED <<run, log>>
        [] o.k = "rununtil" ->                      \* run(until = number a)
             /\ P = 0
-            /\ IF o.a <= now
+            /\ IF UntilAt(o.a) <= now
                THEN /\ log' = Append(log, L("X", 0, FALSE, Val("ValueError", 0, <<>>)))
                     /\ top' = [top EXCEPT !.n = @ + 1]
                     /\ UNCHANGED <<evs, agenda, seq>>
                ELSE LET u == Len(evs) + 1 IN
                     /\ evs' = Append(evs, NewEv("until", "triggered", TRUE, None, FALSE, <<Cb("stop", 0)>>, 0, <<>>, FALSE))
-                    /\ agenda' = agenda \cup {Entry(u, URG, o.a - now, seq)} /\ seq' = seq + 1
+                    \* the stop takes effect at exactly the requested instant
+                    /\ agenda' = agenda \cup {[t |-> UntilAt(o.a), prio |-> URG, k |-> seq, e |-> u]} /\ seq' = seq + 1
                     /\ top' = [top EXCEPT !.mode = "run", !.uk = "time", !.ue = u, !.n = @ + 1]
                     /\ log' = log
             /\ UNCHANGED <<procs, run>>
@@ -538,7 +547,15 @@ Uncaught ==
 CanAct == P # 0 /\ (run.ok \/ procs[P].catch = 1)
 TopCanAct == P = 0 /\ top.mode = "top" /\ cur.e = 0
 
-Kernel == Pop \/ NextCb \/ EndStep \/ RunDry \/ StepDry \/ Uncaught
+Kernel == (Pop \/ NextCb \/ EndStep \/ RunDry \/ StepDry \/ Uncaught) /\ UNCHANGED ftab
+
+\* what a harness can read off every user-visible event object once the plan has finished:
+\* triggered / processed, ok and value (Process.value / ok after termination, Event.processed at each return of run())
+FinalState ==
+  [e \in 1..Len(evs) |->
+     IF evs[e].kind \in UserKinds
+     THEN [st |-> IF evs[e].st = "pending" THEN 0 ELSE IF evs[e].st = "triggered" THEN 1 ELSE 2, ok |-> evs[e].ok, v |-> evs[e].val]
+     ELSE [st |-> -1, ok |-> TRUE, v |-> None]]
 
 (* ------------------------------------------------------------------------ *)
 (* Properties (state predicates over the state and the observable log)       *)
